@@ -47,6 +47,7 @@ Definition cout_eqb (a b : cout) : bool :=
   | OMsg c ch f p, OMsg c' ch' f' p' => (c =? c') && (ch =? ch') && (f =? f') && (p =? p')
   | OMembers c i l, OMembers c' i' l' => (c =? c') && (i =? i') && N_list_eqb l l'
   | OChannels c i l, OChannels c' i' l' => (c =? c') && (i =? i') && N_list_eqb l l'
+  | OAcl c i l, OAcl c' i' l' => (c =? c') && (i =? i') && N_list_eqb l l'
   | OModEvent k ch u o, OModEvent k' ch' u' o' => (k =? k') && (ch =? ch') && (u =? u') && Bool.eqb o o'
   | OModPayload f ch p, OModPayload f' ch' p' => (f =? f') && (ch =? ch') && (p =? p')
   | _, _ => false
@@ -85,7 +86,7 @@ Definition lenient_eqb (obs prod : list cout) : bool :=
 
 Definition conn_of_out (o : cout) : option conn :=
   match o with
-  | OAck c _ _ | OErr c _ _ | OClose c _ | OEvent c _ _ _ _ | OMsg c _ _ _ | OMembers c _ _ | OChannels c _ _ => Some c
+  | OAck c _ _ | OErr c _ _ | OClose c _ | OEvent c _ _ _ _ | OMsg c _ _ _ | OMembers c _ _ | OChannels c _ _ | OAcl c _ _ => Some c
   | _ => None
   end.
 
@@ -171,7 +172,8 @@ Fixpoint hanging (seen : list conn) (l : list action) : list conn :=
 Definition runnable (g : gst) (p : pc) : bool :=
   match p with
   | PStart _ => true
-  | PJoinWait _ o _ _ | PLeaveWait _ o _ _ | PBcastWait _ o _ _ | PMembersWait _ o _ => lock_free g o
+  | PJoinWait _ o _ _ | PLeaveWait _ o _ _ | PBcastWait _ o _ _ | PMembersWait _ o _
+  | PSetAclWait _ o _ _ _ _ | PGetAclWait _ o _ _ => lock_free g o
   | _ => false
   end.
 Definition uses_hint (k : task) : bool :=
@@ -252,36 +254,51 @@ Definition start_op (st : xst) (o : xop) : xst :=
      closing := filter (fun c => negb (mem c (x_gone o))) (closing st);
      pending := x_acts o; script := x_script o; got := []; gotmod := [] |}.
 
-(* (explained?, number of ops explained on the deepest branch) *)
-Fixpoint explain (fuel : nat) (cf : ccfg) (st : xst) (cur : xop) (rest : list xop) (depth : N) : bool * N :=
+(* verdict of the search: a schedule was found / every schedule was tried and none fits / the node budget ran out *)
+Inductive verdict := VYes | VNo | VOut.
+
+(* (verdict, number of ops explained on the deepest branch, budget left) *)
+Fixpoint explain (fuel : nat) (cf : ccfg) (st : xst) (cur : xop) (rest : list xop) (depth : N) (budget : N) : verdict * N * N :=
   match fuel with
-  | O => (false, depth)
+  | O => (VOut, depth, budget)
   | S f =>
+      if budget =? 0 then (VOut, depth, 0) else
+      let budget := budget - 1 in
       match choices st (x_hints cur) with
       | [] => if complete cur st
               then match rest with
-                   | [] => (true, depth + 1)
-                   | o :: r => explain f cf (start_op st o) o r (depth + 1)
+                   | [] => (VYes, depth + 1, budget)
+                   | o :: r => explain f cf (start_op st o) o r (depth + 1) budget
                    end
-              else (false, depth)
-      | cs => fold_left (fun (acc : bool * N) (ch : choice) =>
-                           if fst acc then acc
-                           else fold_left (fun (acc2 : bool * N) (st' : xst) =>
-                                             if fst acc2 then acc2
-                                             else if consistent cur st'
-                                                  then let r := explain f cf st' cur rest depth in
-                                                       if fst r then r else (false, N.max (snd acc2) (snd r))
-                                                  else acc2)
-                                          (apply_choice cf (x_gone cur) (x_hints cur) st ch) acc)
-                        cs (false, depth)
+              else (VNo, depth, budget)
+      | cs => fold_left (fun (acc : verdict * N * N) (ch : choice) =>
+                           match acc with
+                           | (VNo, d, b) =>
+                               fold_left (fun (acc2 : verdict * N * N) (st' : xst) =>
+                                            match acc2 with
+                                            | (VNo, d2, b2) =>
+                                                if consistent cur st'
+                                                then match explain f cf st' cur rest depth b2 with
+                                                     | (VNo, d3, b3) => (VNo, N.max d2 d3, b3)
+                                                     | r => r
+                                                     end
+                                                else acc2
+                                            | _ => acc2
+                                            end)
+                                         (apply_choice cf (x_gone cur) (x_hints cur) st ch) (VNo, d, b)
+                           | _ => acc
+                           end)
+                        cs (VNo, depth, budget)
       end
   end.
 
 Definition xinit : xst := {| xs := cinit; parked := []; answered := []; closing := []; pending := []; script := []; got := []; gotmod := [] |}.
 
-Definition conc_explained (cf : ccfg) (ops : list xop) : bool * N :=
+Definition conc_explained (cf : ccfg) (ops : list xop) : verdict * N * N :=
   match ops with
-  | [] => (true, 0)
-  | o :: r => explain (N.to_nat 4000) cf (start_op xinit o) o r 0
+  | [] => (VYes, 0, 0)
+  | o :: r => explain (N.to_nat 4000) cf (start_op xinit o) o r 0 60000
   end.
-Definition conc_case (cf : ccfg) (ops : list xop) : bool := fst (conc_explained cf ops).
+(* 1: some schedule of the model explains the observation; 0: none does; 2: undecided within the node budget *)
+Definition conc_case (cf : ccfg) (ops : list xop) : N :=
+  match conc_explained cf ops with (VYes, _, _) => 1 | (VNo, _, _) => 0 | (VOut, _, _) => 2 end.
